@@ -1009,7 +1009,8 @@ class TransportLayerLogic:
                 self._trigger_error(isotp.errors.OverflowError('Received a FlowControl PDU indicating an Overflow. Stopping transmission.'))
                 return self.ProcessTxReport(msg=None, immediate_rx_required=False)
 
-            if self.tx_state == self.TxState.IDLE:
+            if self.tx_state in [self.TxState.IDLE, self.TxState.TRANSMIT_SF_STANDBY, self.TxState.TRANSMIT_FF_STANDBY]:
+                # In standby, the rate limiter still holds the first message: no First Frame is awaiting a flow control
                 self._trigger_error(isotp.errors.UnexpectedFlowControlError('Received a FlowControl message while transmission was Idle. Ignoring'))
             else:
                 if flow_control_frame.flow_status == PDU.FlowStatus.Wait:
